@@ -15,6 +15,7 @@ Line-protocol interpreter of the C11 model.
 `c` / `count` is the float32-derived integer computed by the harness (its own emulation of the float32 product); it
 must equal the count of the model's float32 product (`countCeilF32` / `countFloorF32`), else `err CountOutsideRatio`.
   f32count S p q -> ok ceil floor ratioCeil ratioFloor
+  mshape  | sampling-mask shape | collated k-space shape -> ok split-mask shape | broadcasts aligned
 -/
 namespace DirectVerif.Driver.C11
 open DirectVerif DirectVerif.Driver DirectVerif.SslSplit
@@ -159,6 +160,13 @@ def step (op : String) (gs : List (List Int)) : String :=
     let t := seedTuple (nats filename) (nats slice)
     okG [[gaussianSeed t], t.map Int.ofNat]
   | "fwd", hdr :: rest => opFwd hdr rest
+  | "mshape", [_, ms, ks] =>
+    -- per-sample sampling-mask shape, collated k-space shape (B first) -> split-mask shape | broadcasts, batch axes meet
+    match ks with
+    | [] => "err BadOp"
+    | B :: _ =>
+      let m := B.toNat :: splitMaskShape (nats ms)
+      okG [(splitMaskShape (nats ms)).map Int.ofNat, [b2i (broadcastsTo m (nats ks)), b2i (batchAligned m (nats ks))]]
   | "f32count", [[S, p, q]] =>
     if S < 0 || p < 0 || q ≤ 0 then "err BadOp" else
     okG [[countCeilF32 S.toNat p.toNat q.toNat, countFloorF32 S.toNat p.toNat q.toNat, ratioCeil S p q, ratioFloor S p q]]
